@@ -1119,6 +1119,9 @@ impl Rig {
                 let rt = self.rt.clone();
                 let url_arg = st["url"].as_str().map(|x| x.to_string());
                 let rotate = st["rotate"].clone();
+                // the clients take the endpoint's port as an argument: "port" sends the goal-state call to another listener of
+                // the mock WireServer address (default 80)
+                let port = st["port"].as_u64().unwrap_or(80) as u16;
                 let kind2 = kind.clone();
                 // a panic inside the client code must not take the driver thread down: it is data
                 let res = std::panic::catch_unwind(std::panic::AssertUnwindSafe(move || rt.block_on(async {
@@ -1160,7 +1163,7 @@ impl Rig {
                                 Err(_) => false,
                             }
                         }
-                        "goalstate" => crate::host_clients::wire_server_client::WireServerClient::new("168.63.129.16", 80, kk)
+                        "goalstate" => crate::host_clients::wire_server_client::WireServerClient::new("168.63.129.16", port, kk)
                             .get_goalstate()
                             .await
                             .is_ok(),
